@@ -21,8 +21,48 @@ class Case:
     pass
 
 
+def use_decoy(t, rng):
+    """Classes with the SAME NAMES as those of type t but another layout (fields in another order, other scalar
+    types) are defined, instantiated and asked for their C API first -- as when a notebook cell or a factory
+    function defines its classes again.  Anything the library remembers by class name must not leak into the
+    classes defined afterwards."""
+    import copy
+    swap = {"Int64": "Float64", "Float64": "Int32", "Int32": "Int64", "Int8": "Int16", "Int16": "UInt8", "UInt8": "Float32",
+            "Float32": "UInt16", "UInt16": "Int8", "UInt32": "UInt64", "UInt64": "UInt32"}
+    d = copy.deepcopy(t)
+    for n in walk(d):
+        if n["k"] == "st":
+            n["f"].reverse()
+            for f in n["f"]:
+                if f[1]["k"] == "sc":
+                    f[1] = {"k": "sc", "t": swap[f[1]["t"]]}
+        elif n["k"] == "ar" and n["it"]["k"] == "sc":
+            n["it"] = {"k": "sc", "t": swap[n["it"]["t"]]}
+            if len(n["dims"]) > 1:
+                n["ord"] = list(reversed(n["ord"]))
+    try:
+        cache = {}
+        cls = build(d, cache)
+        vg = ValGen(rng)
+        mv = vg.value(d)
+        arg = plain(d, mv, rng)
+        if d["k"] == "ur":
+            obj = cls(*arg) if arg is not None else cls()
+        else:
+            obj = cls(arg)
+        for c_ in cache.values():
+            if hasattr(c_, "_gen_c_api"):
+                c_._gen_c_api()
+            if hasattr(c_, "_gen_kernels"):
+                c_._gen_kernels()
+        from xv.model import compare
+        compare(d, mv, obj)  # reads everything once (fills whatever is memoised on first use)
+    except Exception:
+        pass  # the decoy only has to have been used; it is not the object under test
+
+
 def new_case(w, rng, *, depth=None, roots=("st", "ar", "str", "ur"), tg_kw=None, vg_kw=None, env_kw=None,
-             modes=(None, None, "aligned", "packed", "explicit")):
+             modes=(None, None, "aligned", "packed", "explicit"), decoy=0.1):
     """Random type + value + placement; object built from plain data.  Returns a
     Case with t, cls, cache, mv, env, h, mode, info — or None when the
     construction raised (recorded as a violation)."""
@@ -32,6 +72,9 @@ def new_case(w, rng, *, depth=None, roots=("st", "ar", "str", "ur"), tg_kw=None,
     c.tg = TypeGen(rng, max_depth=depth, **(tg_kw or {}))
     c.t = c.tg.root(allow=roots)
     c.cache = {}
+    if rng.random() < decoy:
+        use_decoy(c.t, rng)
+        w.count("same_named_decoy_classes_used_before")
     c.cls = build(c.t, c.cache)
     c.vg = ValGen(rng, **dict(dict(cap_strings=0.08), **(vg_kw or {})))
     c.mv = c.vg.value(c.t)
